@@ -368,7 +368,16 @@ def targets(ctx):
         "typing_name_as_type_name": {"p.proto": 'syntax = "proto3";\npackage p;\nmessage Optional { int32 a = 1; }\nmessage Holder { optional int32 b = 1; repeated int32 c = 2; }\n'},
     }
 
-    PROBES["field_named_like_annotation_type"] = {"p.proto": 'syntax = "proto3";\npackage p;\nimport "google/protobuf/timestamp.proto";\nimport "google/protobuf/duration.proto";\nmessage Shadow { google.protobuf.Timestamp datetime = 1; google.protobuf.Timestamp other = 2; optional google.protobuf.Duration timedelta = 3; repeated int32 list = 4; repeated int32 more = 5; map<int32, int32> dict = 6; map<int32, int32> d2 = 7; int32 mk20001 = 20001; }\n'}
+    # one probe per shadowing field name: the finding is specific to the names that fail on the pinned tree
+    _SH = ('syntax = "proto3";\npackage p;\nimport "google/protobuf/timestamp.proto";\nimport "google/protobuf/duration.proto";\n'
+           "message Shadow { %s google.protobuf.Timestamp other = 2; optional google.protobuf.Duration span = 8; repeated int32 more = 5; map<int32, int32> d2 = 7; int32 mk20001 = 20001; }\n")
+    for _n, _decl in (("datetime", "google.protobuf.Timestamp datetime = 1;"), ("timedelta", "optional google.protobuf.Duration timedelta = 3;"),
+                      ("list", "repeated int32 list = 4;"), ("dict", "map<int32, int32> dict = 6;")):
+        PROBES["field_named_like_annotation_type:" + _n] = {"p.proto": _SH % _decl}
+
+    # an enum value whose name starts with two underscores (a legal proto identifier): the class body line "__X = 5" is
+    # name-mangled / treated as a dunder and the runtime's metaclass skips every name starting with "__"
+    PROBES["enum_value_dunder_name"] = {"p.proto": 'syntax = "proto3";\npackage p;\nenum Edge { EDGE_ZERO = 0; __BOTH__ = 2; __Z = 5; EDGE_MK = 20001; }\nmessage M { Edge e = 1; int32 mk20002 = 20002; }\n'}
 
     def probe_cases():
         for k in PROBES:
@@ -473,6 +482,9 @@ def targets(ctx):
         c = gen.compile_files(files, tag="c03m_", extra_env=extra_env)
         try:
             found = validate_by_name(c)
+            if case["matrix"] == "single_construct_shapes":
+                # the shapes carry markers: the marker-indexed validation (which also instantiates every class) as well
+                found = found + [x for x in validate(c) if x not in found]
             fails = []
             for cl, where, d in found:
                 # name the field name(s) concerned: the message N<i> is in the detail
